@@ -356,3 +356,392 @@ def oracle(desc, got):
         if got != exp:
             return f'concat yields {got}, expected {exp}'
     return None
+
+
+# ---- VerilogTransformer.module: passes 0, 1, 1.5, 2 (Model/VerilogModule.v) --------------------------------
+MOD_HEADER = '''From Coq Require Import List NArith ZArith Bool Arith String Ascii.
+From KV Require Import Model.VerilogElab Model.Circuit Model.VerilogModule Model.Corr.
+Import ListNotations.
+Local Open Scope list_scope.
+Local Open Scope string_scope.
+'''
+
+
+def mod_cases_file(cases):
+    return MOD_HEADER + 'Definition results : list bool := [\n ' + ';\n '.join(cases) + '].\nEval vm_compute in (failing results).\n'
+
+
+INST_SEEN = []      # (pin children of the parse tree, items of the dict built by VerilogTransformer.instantiation)
+
+
+def inst_cases(limit):
+    """the intercepted calls of VerilogTransformer.instantiation as cases for Model/VerilogModule.v mk_pins"""
+    out, seen = [], set()
+    for raw, items in INST_SEEN:
+        try:
+            rp = clist(raw, lambda p: (f'RNamed {cstr(p[0])} {copt(p[1], coq_sigval)}' if isinstance(p, tuple) else f'RPos {coq_sigval(p)}'))
+            it = clist(items, lambda kv: '(' + (f'PName {cstr(kv[0])}' if isinstance(kv[0], str) else f'PPos {kv[0]}') + f', {coq_sigval(kv[1])})')
+        except AssertionError:
+            continue
+        c = f'inst_case {rp} {it}'
+        if c not in seen:
+            seen.add(c)
+            out.append(c)
+        if len(out) >= limit:
+            break
+    del INST_SEEN[:]
+    return out
+
+
+_PARSERS = {}       # (id(tlib), branchforks) -> (Lark parser with the tapping transformer, the transformer)
+
+
+def _tap_parser(tlib, branchforks):
+    from lark import Lark
+    from kyupy import verilog
+    key = (id(tlib), branchforks)
+    if key not in _PARSERS:
+        class Tap(verilog.VerilogTransformer):
+            seen = None
+
+            @staticmethod
+            def instantiation(args):
+                r = verilog.VerilogTransformer.instantiation(args)
+                INST_SEEN.append(([a.children[0] for a in args[2:]], list(r.pins.items())))
+                return r
+
+            def module(self, args):
+                rec = [list(args), None, None]
+                self.seen.append(rec)
+                try:
+                    rec[1] = verilog.VerilogTransformer.module(self, args)
+                except Exception as e:       # the model's None
+                    rec[2] = type(e).__name__
+                    raise
+                return rec[1]
+        tap = Tap(branchforks, tlib)
+        _PARSERS[key] = (Lark(verilog.GRAMMAR, parser='lalr', transformer=tap), tap)
+    return _PARSERS[key]
+
+
+def capture_modules(text, tlib, branchforks):
+    """Runs the REAL parser (kyupy.verilog.GRAMMAR, lalr, transformer applied while parsing, exactly as verilog.parse does)
+    with a subclass of VerilogTransformer whose `module` records the arguments lark hands to it and then calls the real
+    method.  -> [(args, Circuit | None, exception name | None)], one entry per module call."""
+    parser, tap = _tap_parser(tlib, branchforks)
+    tap.seen = seen = []
+    try:
+        with quiet():
+            parser.parse(text)
+    except Exception as e:
+        if not seen or seen[-1][2] is None:
+            return None, f'{type(e).__name__}: {e}'       # the text did not reach module (lexer / parser / child transformer)
+    return seen, None
+
+
+def coq_sigval(v):
+    if isinstance(v, str):
+        return f'(SOne {cstr(v)})'
+    return f'(SMany {clist(list(v), cstr)})'
+
+
+def coq_module_args(args):
+    """the argument list of VerilogTransformer.module as a vmodule term"""
+    from kyupy.verilog import SignalDeclaration, Instantiation
+    kd = {'input': 'KInput', 'output': 'KOutput', 'wire': 'KWire'}
+    stmts = []
+    for st in args[2:]:
+        if isinstance(st, list):
+            assert all(isinstance(d, SignalDeclaration) for d in st) and st, st
+            ds = [f'{{| d_kind := {kd[d.kind]}; d_base := {cstr(d.basename)}; d_rng := ' +
+                  ('None' if d.rnge is None else f'(Some {clist(list(d.rnge), cz)})') + ' |}' for d in st]
+            stmts.append(f'VDecl {clist(ds)}')
+        elif isinstance(st, Instantiation):
+            pins = [('(' + (f'PName {cstr(p)}' if isinstance(p, str) else f'PPos {p}') + f', {coq_sigval(s)})') for p, s in st.pins.items()]
+            stmts.append(f'VInst {cstr(st.type)} {cstr(st.name)} {clist(pins)}')
+        else:
+            assert st.data == 'assign' and len(st.children) == 2, st
+            stmts.append(f'VAssign {coq_sigval(st.children[0])} {coq_sigval(st.children[1])}')
+    ports = list(args[1].children)
+    return f'(mkM {cstr(args[0])} {clist(ports, cstr)} {clist(stmts)})'
+
+
+def coq_pin_tables(args, tlib):
+    """TechLib.cells[kind][1] for every instantiated kind the library knows, in dict order"""
+    from kyupy.verilog import Instantiation
+    kinds = []
+    for st in args[2:]:
+        if isinstance(st, Instantiation) and st.type not in kinds:
+            kinds.append(st.type)
+    rows = []
+    for k in kinds:
+        if k in tlib.cells:
+            tab = tlib.cells[k][1]
+            rows.append(f'({cstr(k)}, ' + clist(tab.items(), lambda kv: f'({cstr(kv[0])}, ({kv[1][0]}, {"true" if kv[1][1] else "false"}))') + ')')
+    return clist(rows)
+
+
+def circuit_view(c):
+    nodes = [(n.name, n.kind) for n in c.nodes]
+    lines = [(l.driver.index, l.driver_pin, l.reader.index, l.reader_pin) for l in c.lines]
+    io = [None if n is None else n.index for n in c.io_nodes]
+    assert all(n.index == i for i, n in enumerate(c.nodes)) and all(l.index == i for i, l in enumerate(c.lines))
+    return nodes, lines, io
+
+
+def module_cases_of(text, tlib, branchforks, desc):
+    """-> [(coq case, description, got)] for every module of the text; [] if the text never reaches module"""
+    seen, err = capture_modules(text, tlib, branchforks)
+    if seen is None:
+        return []
+    out = []
+    for args, c, exc in seen:
+        d = dict(desc, kind='module', branchforks=branchforks, text=text)
+        if exc:
+            got = None
+            d['raises'] = exc
+        else:
+            got = circuit_view(c)
+            if c.name != args[0]:
+                d['name-mismatch'] = (c.name, args[0])
+        try:
+            term = coq_module_args(args)
+        except AssertionError:          # a non-ASCII / control character in a name: not renderable
+            continue
+        cgot = copt(got, lambda v: '(' + clist(v[0], lambda p: f'({cstr(p[0])}, {cstr(p[1])})') + ', ' +
+                    clist(v[1], lambda q: f'({q[0]}, {q[1]}, {q[2]}, {q[3]})') + ', ' + clist(v[2], lambda x: copt(x, str)) + ')')
+        bfs = 'true' if branchforks else 'false'
+        out.append((f'module_case {term} {coq_pin_tables(args, tlib)} {bfs} {cgot}', d, got))
+    return out
+
+
+WILD_NAMES = ['a', 'b', 'c', 'w', 'z', 'y', 'k', 'n1', 'u1', 'q']
+WILD_KINDS = ['AND2_X1', 'INV_X1', 'BUF_X1', 'HA_X1', 'DFF_X1', 'NAND2_X1', 'MUX2_X1', 'FOO', 'output', '__fork__', '__const0__']
+
+
+def gen_wild_module(rng):
+    """small module texts over a tiny name pool, far outside what a synthesis tool writes: several drivers on one signal,
+    undriven and unread signals, assigns in every direction (constants, driven targets, chains, self assigns, width
+    mismatch), whole buses and concatenations on pins, positional and empty and duplicate and unknown pins, unknown cell
+    kinds, instances named like ports, 1-bit buses by base name, undeclared ports, redeclarations, several modules."""
+    from kyupy import techlib
+    tl = techlib.NANGATE
+    names = rng.sample(WILD_NAMES, rng.randint(2, 7))
+    decl = {}
+    lines = []
+    for nm in names:
+        r = rng.random()
+        kind = rng.choice(['input', 'input', 'output', 'output', 'wire', 'wire', 'inout', 'tri', None])
+        if kind is None:
+            continue
+        if r < 0.55:
+            rg = None
+        elif r < 0.75:
+            k = rng.choice([0, 0, 1, 3])
+            rg = (k, k)
+        else:
+            rg = (rng.randint(0, 3), rng.randint(0, 3))
+        decl[nm] = (kind, rg)
+        lines.append(f'{kind} ' + (f'[{rg[0]}:{rg[1]}] ' if rg else '') + nm + ';')
+        if rng.random() < 0.15:
+            lines.append(rng.choice(['wire', 'output', 'input']) + ' ' + (f'[{rg[0]}:{rg[1]}] ' if rg and rng.random() < 0.7 else '') + nm + ';')
+
+    def bit(nm):
+        rg = decl.get(nm, (None, None))[1]
+        r = rng.random()
+        if rg is None or r < (0.25 if rg[0] == rg[1] else 0.06):
+            return nm if r > 0.03 else f'{nm}[0]'
+        lo, hi = min(rg), max(rg)
+        i = rng.randint(lo, hi) if r < 0.95 else hi + 1
+        return f'{nm}[{i}]'
+
+    def expr(wide=True):
+        r = rng.random()
+        if r < 0.12:
+            w = rng.choice([1, 1, 1, 2, 3])
+            return f"{w}'b" + ''.join(rng.choice('01') for _ in range(w))
+        if r < 0.14:
+            return rng.choice(["1'h1", "1'd0", "2'd5", "1'B1"] + (["\\1'b ", "\\1'bx "] if rng.random() < 0.1 else []))
+        nm = rng.choice(names)
+        if r < 0.88 or not wide:
+            return bit(nm)
+        if r < 0.93:
+            rg = decl.get(nm, (None, None))[1]
+            return f'{nm}[{rg[0]}:{rg[1]}]' if rg else nm
+        return '{' + ', '.join(expr(False) for _ in range(rng.randint(1, 3))) + '}'
+    driven = {nm for nm in names if decl.get(nm, ('',))[0] in ('input', 'inout')}
+
+    def target():
+        """mostly a bit nobody drives yet (a second driver is an assertion in Node())"""
+        for _ in range(6):
+            e = expr(False)
+            if e not in driven or rng.random() < 0.04:
+                driven.add(e)
+                return e
+        return f'nn{len(driven)}'
+    insts = rng.sample(['g1', 'g2', 'g3', 'g4', 'g5', 'u1', 'a', 'z', '__const0_0__', '__const1_1__'], rng.randint(0, 4))
+    for inst in insts:
+        kind = rng.choice(WILD_KINDS[:7]) if rng.random() < 0.95 else rng.choice(WILD_KINDS)
+        r = rng.random()
+        if kind in tl.cells:
+            pn = list(tl.cells[kind][1])
+        else:
+            pn = ['A', 'Z']
+        if r < 0.03:
+            pins = [expr() for _ in range(rng.randint(0, 3))]             # positional
+        else:
+            rng.shuffle(pn)
+            pins = []
+            for p in pn:
+                q = rng.random()
+                if q < 0.08:
+                    continue
+                is_out = kind in tl.cells and tl.cells[kind][1][p][1]
+                if q < 0.13:
+                    pins.append(f'.{p}()')
+                elif is_out and q < 0.97:
+                    pins.append(f'.{p}({target()})')
+                else:
+                    pins.append(f'.{p}({expr(q < 0.16)})')
+            if rng.random() < 0.08:
+                pins.insert(rng.randint(0, len(pins)), f'.{rng.choice(pn + pn + ["XX"])}({expr(False)})')       # duplicate or unknown pin
+        lines.append(f'{kind} {inst} (' + ', '.join(pins) + ');')
+    for _ in range(rng.choice([0, 0, 1, 1, 2, 3, 4])):
+        lines.append(f'assign {target() if rng.random() < 0.93 else expr()} = {expr()};')
+    rng.shuffle(lines)
+    ports = [nm for nm in names if nm in decl and (decl[nm][0] not in ('wire', 'tri') or rng.random() < 0.1)]
+    rng.shuffle(ports)
+    if rng.random() < 0.05:
+        ports.append(rng.choice(WILD_NAMES))
+    text = 'module t (' + ', '.join(ports) + ');\n ' + '\n '.join(lines) + '\nendmodule\n'
+    if rng.random() < 0.05:
+        text += 'module t2 (a); input a; endmodule\n'
+    return text, tl
+
+
+# ---- TechLib pin tables vs the tables derived from the translated library text (Model/VerilogLibPins.v) ------
+LIB_HEADER = MOD_HEADER + 'From KV Require Import Model.TechCell Gen.TechLibs Model.VerilogLibPins.\n'
+
+
+def pintab_cases(libnames, rng):
+    """one case per (library, cell kind) of the real TechLib objects plus a few kinds no library has"""
+    from kyupy import techlib
+    cases, meta = [], []
+    for ln in libnames:
+        tl = getattr(techlib, ln)
+        kinds = list(tl.cells) + ['__fork__', 'NOSUCH_X1', rng.choice(list(tl.cells)) + '_']
+        for k in kinds:
+            got = list(tl.cells[k][1].items()) if k in tl.cells else None
+            cg_ = copt(got, lambda t: clist(t, lambda kv: f'({cstr(kv[0])}, ({kv[1][0]}, {"true" if kv[1][1] else "false"}))'))
+            cases.append(f'pintab_case lib_{ln} {cstr(k)} {cg_}')
+            meta.append({'kind': 'pintab', 'lib': ln, 'cell': k})
+    return cases, meta
+
+
+def lib_cases_file(cases):
+    return LIB_HEADER + 'Definition results : list bool := [\n ' + ';\n '.join(cases) + '].\nEval vm_compute in (failing results).\n'
+
+
+# ---- directed stream for known finding D33: a signal that is named like a generated branch fork ----------------
+def gen_bf_clash(rng):
+    """-> (clash text, control text, library name, description).  A flat module in which instance `victim` reads signal S on
+    pin P, and a wire that is called exactly  S~victim/P  (the name VerilogTransformer.module gives the branch fork of that
+    pin; an escaped identifier) is read by another instance.  The control text is the same module with a harmless wire name.
+    Statement order, the position of the reader, declared / implicit wire, bus bits as S, extra instances vary."""
+    from harness import vlog_gen as vg
+    lib = rng.choice(vg.LIBS)
+    cat = vg.catalogue(lib)
+    cells = [c for k, v in cat.items() if k[0] not in ('dff', 'sdff') for c in v if len(c[2]) == 1 and 1 <= len(c[1]) <= 3]
+    n_in = rng.randint(2, 4)
+    use_bus = rng.random() < 0.4
+    if use_bus:
+        lo = rng.choice([0, 1, 3])
+        rg = (lo + n_in - 1, lo) if rng.random() < 0.6 else (lo, lo + n_in - 1)
+        idx = list(range(rg[0], rg[1] + 1)) if rg[0] <= rg[1] else list(range(rg[0], rg[1] - 1, -1))
+        srcs = [f'd[{i}]' for i in idx]
+        decl_in = f'input [{rg[0]}:{rg[1]}] d;'
+        ports_in = ['d']
+    else:
+        srcs = rng.sample(['a', 'b', 'c', 'e'], n_in)
+        decl_in = 'input ' + ', '.join(srcs) + ';'
+        ports_in = list(srcs)
+    insts = rng.sample(['u1', 'u2', 'g3', 'U4', 'x5', 'i_6'], 3)
+    victim, reader, other = insts
+
+    def inst(name, cell, conn):
+        kind, ins, outs, _ = cell
+        pins = [f'.{p}({s})' for p, s in conn.items()]
+        rng.shuffle(pins)
+        return f'{kind} {name} (' + ', '.join(pins) + ');'
+    vcell, rcell, ocell = rng.choice(cells), rng.choice(cells), rng.choice(cells)
+    vconn = {p: rng.choice(srcs) for p in vcell[1]}
+    vconn[vcell[2][0]] = 'y'
+    P = rng.choice(vcell[1])
+    S = vconn[P]
+    clash = f'{S}~{victim}/{P}'
+    control = 'w_' + ''.join(ch if ch.isalnum() else '_' for ch in clash)
+    rpin = rng.choice(rcell[1])
+    oconn = {p: rng.choice(srcs) for p in ocell[1]}
+    oconn[ocell[2][0]] = 'v'
+    declare = rng.random() < 0.6
+    reader_first = rng.random() < 0.3
+
+    def render(wname):
+        ref = wname if all(ch.isalnum() or ch == '_' for ch in wname) else '\\' + wname + ' '
+        rconn = {p: (ref if p == rpin else rng.choice(srcs)) for p in rcell[1]}
+        rconn[rcell[2][0]] = 'z'
+        body = [inst(victim, vcell, vconn), inst(other, ocell, oconn)]
+        rinst = inst(reader, rcell, rconn)
+        if reader_first:
+            body.insert(0, rinst)
+        else:
+            body.insert(rng.randint(1, len(body)), rinst)
+        decls = [decl_in, 'output y, z, v;'] + ([f'wire {ref};'] if declare else [])
+        stmts = decls + body
+        if rng.random() < 0.5:
+            stmts = body + decls
+        return f'module clash ({", ".join(ports_in + ["y", "z", "v"])});\n ' + '\n '.join(stmts) + '\nendmodule\n'
+    st = rng.getstate()
+    t_clash = render(clash)
+    rng.setstate(st)                      # the same random choices for the control text
+    t_ctrl = render(control)
+    return t_clash, t_ctrl, lib, {'kind': 'bf-clash', 'lib': lib, 'victim': f'{victim}.{P}', 'signal': S, 'clash-name': clash,
+                                  'reader-first': reader_first, 'declared': declare}
+
+
+def bf_diff(text, libname):
+    """parses with branchforks False / True and compares the connectivity after contracting the added 1:1 forks.
+    -> None if branchforks only inserts forks, else a description of the difference."""
+    from kyupy import verilog, techlib
+    from harness import vlog_gen as vg
+    tl = getattr(techlib, libname)
+    res = {}
+    for bf in (False, True):
+        try:
+            with quiet():
+                res[bf] = verilog.parse(text, tlib=tl, branchforks=bf)
+        except Exception as e:
+            res[bf] = f'{type(e).__name__}: {e}'
+    c0, c1 = res[False], res[True]
+    if isinstance(c0, str) and isinstance(c1, str):
+        return None
+    if isinstance(c0, str) or isinstance(c1, str):
+        return (f'branchforks=False {"raises " + c0 if isinstance(c0, str) else "is accepted"}, '
+                f'branchforks=True {"raises " + c1 if isinstance(c1, str) else "is accepted"}')
+    key = lambda n: (n.name, n.kind)
+    n0, n1 = {key(n) for n in c0.nodes}, {key(n) for n in c1.nodes}
+    if not n0 <= n1:
+        return f'nodes missing with branchforks=True: {sorted(n0 - n1)[:3]}'
+    extras = n1 - n0
+    for n in c1.nodes:
+        if key(n) in extras and (n.kind != '__fork__' or len(n.ins) != 1 or len(n.outs) != 1 or n.ins[0] is None or n.outs[0] is None):
+            return f'branchforks=True adds node {n.name!r} ({n.kind}) with {len(n.ins)} inputs / {len(n.outs)} outputs: not a 1:1 fork'
+    a, b = vg.canon(c0, set()), vg.canon(c1, extras)
+    if a != b:
+        only0 = [e for e in a if e not in b][:2]
+        only1 = [e for e in b if e not in a][:2]
+        return f'after contracting the added forks: only without branch forks {only0}, only with branch forks {only1}'
+    n_pins = sum(1 for n in c0.nodes if n.kind != '__fork__' for l in n.ins if l is not None and n.kind not in ('output',))
+    if len(extras) != n_pins:
+        return f'branchforks=True adds {len(extras)} forks for {n_pins} connected cell input pins'
+    return None
